@@ -37,7 +37,7 @@ def run(ctx):
     ctx.assumptions += [
         "backing store operations are atomic and its key enumeration is a snapshot taken when AllKeysChan is called",
         "bbloom AddTS/HasTS and golang-lru 2Q Get/Add/Remove are atomic",
-        "PutMany is one independent Put per key (no cross-key atomicity, as in the uncached store)",
+        "PutMany is one independent Put per key that occurs in the batch (no cross-key atomicity, as in the uncached store)",
         "no Bloom false positives among the 2 model keys in gated schedules (checked at run time); false positives are "
         "covered by the model (AllowFP) and by free-running traces",
     ]
@@ -45,12 +45,14 @@ def run(ctx):
         "M: all interleavings of 2-3 clients x 1-2 keys x all op kinds (+ build goroutine, Rebuild, enumeration abort at every "
         "position, evictions, false positives). G-seq: every sequential history of depth 2 (thorough) and simulated histories of "
         "length 40 over configurations {cache 0,1,2,3,64} x {bloom 0,1,64,512Ki bytes} x initial contents x initial-build faults; "
-        "every answer compared with the map model. G-sched: TLC-simulated gate-to-gate schedules of 3 clients + builder, plus all "
+        "every answer compared with the map model; PutMany batches are sequences of keys (0..5 blocks, duplicates, any order), "
+        "and every batch of length <= 4 over 3 keys is replayed on every configuration x initial content (thorough: also after "
+        "one preparing call). G-sched: TLC-simulated gate-to-gate schedules of 3 clients + builder, plus all "
         "shortest schedules ending in a property violation per race window. T: free-running goroutines, every return decided by the "
         "monitor. non-trivial = sequential history with >= 2 store changes and a Rebuild, or a schedule in which two actors are "
         "inside calls at the same time")
     ctx.specdir("CacheLayers")
-    pool = ThreadPoolExecutor(max_workers=8)
+    pool = ThreadPoolExecutor(max_workers=10)
 
     # ---------------------------------------------------------------- phase M (in the background)
     mc = []
@@ -78,6 +80,11 @@ def run(ctx):
     f_seqsim = pool.submit(ctx.tlc_gen, "CacheLayers", "GenSeqCacheLayers.tla", "GenSeqSim.cfg",
                            simulate=40 if q else 400, depth=45, timeout=1200)
     f_seqbfs = None if q else pool.submit(ctx.tlc_gen, "CacheLayers", "GenSeqCacheLayers.tla", "GenSeq.cfg", timeout=1800)
+    # batch family: every PutMany batch as a SEQUENCE (duplicates, order) of length <= 4 on every configuration
+    # (thorough: also length <= 3 after one preparing call that leaves an entry in the existence cache)
+    f_batch = pool.submit(ctx.tlc_gen, "CacheLayers", "GenSeqCacheLayers.tla", "GenSeqBatch.cfg", timeout=1200, workers=2)
+    f_batchT = None if q else pool.submit(ctx.tlc_gen, "CacheLayers", "GenSeqCacheLayers.tla", "GenSeqBatchT.cfg",
+                                          timeout=1800, workers=2)
     f_violB = pool.submit(ctx.tlc_gen, "CacheLayers", "GenSchedCacheLayers.tla", "GenViolB.cfg", timeout=1200, workers=2)
     f_sim = pool.submit(ctx.tlc_gen, "CacheLayers", "GenSchedCacheLayers.tla", "GenSchedSim.cfg",
                         simulate=150 if q else 1500, depth=500, timeout=1200)
@@ -98,6 +105,13 @@ def run(ctx):
     if ctx.replay_behaviours(binp, TEST, PKG, seqs, env={"C02_KIND": "seq"}, name="seqsim",
                              nontrivial=seq_nontrivial) is None:
         return
+    def batch_nontrivial(b):
+        ks = b["steps"][-1]["ks"]
+        return len(set(ks)) >= 2 and len(set(ks)) < len(ks)      # a duplicate AND another block in one batch
+    for f, nm in ((f_batch, "seqbatch"), (f_batchT, "seqbatchprep")):
+        if f is not None and ctx.replay_behaviours(binp, TEST, PKG, f.result(), env={"C02_KIND": "seq"}, name=nm,
+                                                   nontrivial=batch_nontrivial) is None:
+            return
     if f_seqbfs is not None:
         if ctx.replay_behaviours(binp, TEST, PKG, f_seqbfs.result(), env={"C02_KIND": "seq"}, name="seqbfs",
                                  nontrivial=seq_nontrivial) is None:
